@@ -245,6 +245,9 @@ class _Publish(Client):
             self._need_free("the data write", node, dup)
             flushed = kind == "file:print" and const_value(kwarg(node, "flush"), False) is True
             uses_data = any(isinstance(n, ast.Name) and n.id == self.data for n in ast.walk(node))
+            if kind == "file:write" and len(node.args) == 1 and const_value(node.args[0], None) == "\n":
+                # the line terminator written on its own (`write(data); write("\n")`): not the data write, but unflushed content
+                return ((tell, w, False, pub, dup, cnt),)
             if not uses_data:
                 self.problems.append((node.lineno, "R2", "the write does not write the data parameter"))
             return ((tell, True, flushed, pub, dup, cnt),)
@@ -409,19 +412,26 @@ def r4_iter(prog, rep: Report, sf: StorageFacts):
             continue
         defs = flow.defs_of(s.slice)
         ok, why = True, ""
+        unknown = ""
+        from ..util import expand_all
         for d in defs:
             if d.kind != "for" or not isinstance(d.value, ast.expr):
-                ok, why = False, f"identifier has origin {d.kind}"
+                unknown = f"the identifier `{src(s.slice)}` is not a loop variable (origin: {d.kind}): what it ranges over is not read"
                 continue
             it = d.value
-            text = src(it)
+            text = src(expand_all(it, flow))                 # index_size = len(self._index); for i in range(index_size)
             over_index = f"{f.self_name}.{sf.index}" in text
             over_count = f"len({f.self_name})" in text or f"{f.self_name}.{sf.count}" in text
-            if over_count or not over_index:
+            if over_count:
                 ok, why = False, f"identifiers range over `{text}`"
-        rep.check("C14.R4", f, "range", ok, f"identifiers range over the index ({src(next(iter(defs)).value) if defs else '?'})",
-                  f"{why}: with gaps the highest identifiers are >= the number of stored items and are never yielded",
-                  scenario="ids {0, 5} stored: iteration yields only the text of id 0", line=s.lineno)
+            elif not over_index:
+                unknown = f"identifiers range over `{text}`: neither the length of the index nor the number of stored items"
+        if ok and unknown:
+            rep.unrec("C14.R4", f, "range", unknown, s.lineno)
+        else:
+          rep.check("C14.R4", f, "range", ok, f"identifiers range over the index ({src(next(iter(defs)).value) if defs else '?'})",
+                    f"{why}: with gaps the highest identifiers are >= the number of stored items and are never yielded",
+                    scenario="ids {0, 5} stored: iteration yields only the text of id 0", line=s.lineno)
         # gaps skipped: the subscript sits in a try with an IndexError handler that does not re-raise
         tr = None
         p = getattr(s, "_parent", None)
